@@ -1,0 +1,98 @@
+// SPDX-FileCopyrightText: 2026 The Pion community <https://pion.ly>
+// SPDX-License-Identifier: MIT
+
+//go:build verif
+
+package allocation
+
+import (
+	"net"
+
+	"github.com/pion/turn/v5/internal/proto"
+)
+
+// VerifTCPConn is a snapshot of one entry of Allocation.tcpConnections.
+type VerifTCPConn struct {
+	ID     proto.ConnectionID
+	Remote net.Addr
+	Bound  bool
+}
+
+// VerifAllocations returns a snapshot of the allocation table.
+func (m *Manager) VerifAllocations() []*Allocation {
+	m.lock.RLock()
+	defer m.lock.RUnlock()
+
+	as := make([]*Allocation, 0, len(m.allocations))
+	for _, a := range m.allocations {
+		as = append(as, a)
+	}
+
+	return as
+}
+
+// VerifReservations returns a snapshot of the reservation table (token -> port).
+func (m *Manager) VerifReservations() map[string]int {
+	m.lock.RLock()
+	defer m.lock.RUnlock()
+
+	rs := make(map[string]int, len(m.reservations))
+	for _, r := range m.reservations {
+		rs[r.token] = r.port
+	}
+
+	return rs
+}
+
+// VerifTCPConnections returns a snapshot of the allocation's peer data connections.
+func (m *Manager) VerifTCPConnections(a *Allocation) []VerifTCPConn {
+	m.lock.RLock()
+	defer m.lock.RUnlock()
+
+	cs := make([]VerifTCPConn, 0, len(a.tcpConnections))
+	for id, c := range a.tcpConnections {
+		cs = append(cs, VerifTCPConn{ID: id, Remote: c.RemoteAddr(), Bound: c.isBound.Load()})
+	}
+
+	return cs
+}
+
+// VerifLocksFree reports whether the manager's lock can be taken right now.
+func (m *Manager) VerifLocksFree() bool {
+	if !m.lock.TryLock() {
+		return false
+	}
+	m.lock.Unlock()
+
+	return true
+}
+
+// VerifLocksFree reports whether both table locks of the allocation can be taken right now.
+func (a *Allocation) VerifLocksFree() bool {
+	if !a.permissionsLock.TryLock() {
+		return false
+	}
+	a.permissionsLock.Unlock()
+	if !a.channelBindingsLock.TryLock() {
+		return false
+	}
+	a.channelBindingsLock.Unlock()
+
+	return true
+}
+
+// VerifUserID returns the user that created the allocation.
+func (a *Allocation) VerifUserID() string { return a.userID }
+
+// VerifFiveTuple returns the allocation's 5-tuple.
+func (a *Allocation) VerifFiveTuple() *FiveTuple { return a.fiveTuple }
+
+// VerifClosed reports whether Close has run on the allocation.
+func (a *Allocation) VerifClosed() bool {
+	select {
+	case <-a.closed:
+		return true
+	default:
+		return false
+	}
+}
